@@ -182,6 +182,16 @@ def _do(op):
         return show_timex(d.TimexHelpers.timex_time_add(d.Timex(op[1]), d.Timex(op[2])))
     if k == 'durvalue':
         return 'S' + cps(d.TimexValue.duration_value(d.Timex(op[1])))
+    if k == 'ctor':  # regex-independent direction: fields -> Timex(...) -> format -> parse back
+        import decimal
+        kw = {}
+        for name, v in op[1]:
+            kw[name] = decimal.Decimal(v[2:]) if isinstance(v, str) and v.startswith('D:') else v
+        t = d.Timex(**kw)
+        f1 = show_timex(t).split(' ## ')[0]
+        v = t.timex_value()
+        t2 = d.Timex(v)
+        return (v, f1, show_timex(t2).split(' ## ')[0], t2.timex_value())
     if k == 'roundtrip':  # property oracle data for C14: (value, fields(s), fields(value), value2)
         t = d.Timex(op[1])
         f1 = show_timex(t)
